@@ -616,3 +616,57 @@ pub fn commit_probe(path: &str) {
         }
     });
 }
+
+/// impl -> spec for Display.tla (not a listed property; bin/spec-extras): generated jet-free, word-free Core programs with their
+/// bytes, the crate's base64 / hex / DisplayExpr strings, and the result of parsing the two strings back.
+pub fn record_display(runs: usize, path: &str) {
+    let mut rng = Rng::from_env(101);
+    let mut out = Out::file(path);
+    let empty: Vec<JetSig> = vec![];
+    let mut done = 0;
+    let mut attempts = 0;
+    while done < runs && attempts < runs * 60 {
+        attempts += 1;
+        let budget = rng.range(6, 40);
+        let dag = {
+            let mut g = Gen::new(&mut rng, &empty, budget);
+            g.allow_fail = attempts % 5 == 0;
+            let root = g.expr(&Ty::Unit, &Ty::Unit, 8);
+            g.finish(root)
+        };
+        if dag.as_array().unwrap().iter().any(|nd| nd[0] == "word" || nd[0] == "jet") { continue; }
+        let n = dag.as_array().unwrap().len();
+        if n < 3 && attempts % 50 != 0 { continue; }
+        let mut ty = vec![J::Null; n];
+        ty[n - 1] = json!([["1"], ["1"]]);
+        let aux0 = json!(vec![json!(["none"]); n]);
+        let ev = guarded(|| {
+            types::Context::with_context(|ctx| {
+                let (_, _, built) = build_typed(&ctx, Family::Core, &dag, &json!(ty), &aux0).ok()?;
+                let full_ty: Vec<J> = built.iter().map(|b| { let a = b.arrow().finalize().unwrap(); json!([ty_j(&a.source), ty_j(&a.target)]) }).collect();
+                let mut auxv = vec![json!(["u"]); n];
+                for (i, nd) in dag.as_array().unwrap().iter().enumerate() {
+                    if nd[0] == "witness" { auxv[i] = Ty::from_final(&ty_of(&full_ty[i][1])).rand_val(&mut rng); }
+                }
+                let (redeem, _, _) = build_typed(&ctx, Family::Core, &dag, &json!(full_ty), &json!(auxv)).ok()?;
+                let (sdag, _, _) = describe_prog(&redeem);
+                if sdag.as_array().unwrap().len() > 60 { return None; }
+                let (pb, wb) = redeem.to_vec_with_witness();
+                let disp = redeem.display();
+                let (b64, hx) = (disp.program().to_string(), disp.witness().to_string());
+                let expr = redeem.display_expr().to_string();
+                let back = match RedeemNode::from_str::<Core>(&b64, &hx) {
+                    Ok(r) => if r.cmr() == redeem.cmr() && r.ihr() == redeem.ihr() && r.to_vec_with_witness() == (pb.clone(), wb.clone()) { "same".to_string() } else { "differs".to_string() },
+                    Err(e) => format!("error: {}", e),
+                };
+                let short: Vec<J> = sdag.as_array().unwrap().iter().map(|nd| json!([nd[0], nd[1], nd[2]])).collect();
+                Some(json!({"ev": "display", "dag": short, "pb": bits_of_bytes(&pb), "wb": bits_of_bytes(&wb), "b64": b64, "wit_hex": hx, "expr": expr, "from_str": back}))
+            })
+        });
+        match ev {
+            Ok(Some(e)) => { out.emit(&e); done += 1; }
+            Ok(None) => {}
+            Err(p) => { out.emit(&json!({"ev": "display", "dag": [], "pb": [], "wb": [], "b64": "", "wit_hex": "", "expr": "", "from_str": format!("panic: {}", p)})); done += 1; }
+        }
+    }
+}
